@@ -118,6 +118,11 @@ def _signature(project, f, kind):
         firsts = [e.term[1][1][1] for e in r.events if e.kind == "assign" and e.term[1][1][0] == "item" and e.term[1][1][2] == 0 and e.term[1][1][1][0] == "call"]
         seconds = {e.term[1][1][1] for e in r.events if e.kind == "assign" and e.term[1][1][0] == "item" and e.term[1][1][2] == 1}
         recv = [g_ for g_ in firsts if g_ in seconds]
+        if not recv:
+            # the item may have passed through a local first (`segment = next_item(..); image, desc = segment`, with the
+            # polling helper inlined as the loop it wraps): whatever is unpacked into two names is the received item
+            anyfirst = [e.term[1][1][1] for e in r.events if e.kind == "assign" and e.term[1][1][0] == "item" and e.term[1][1][2] == 0]
+            recv = [g_ for g_ in anyfirst if g_ in seconds and g_[0] == "sym"]
         gets = [e for e in r.events if e.kind == "call" and e.term[1][0] == "attr" and e.term[1][2] == "get"]
         if not recv and not gets:
             return None, "worker never receives", r
